@@ -71,6 +71,8 @@ type SentReq struct {
 	AppliedTerm  uint64
 	SyncState    string
 	ConfigFlat   map[string]string
+	AppliedFlat  map[string]string // live applied values at that moment
+	Applying     bool              // some proposal of the target was APPLYING
 }
 
 // Run is an executed scenario with everything the oracles look at.
@@ -86,6 +88,8 @@ type Run struct {
 	// per target history of (Proposed, Committed, Applied, Term) for monotonicity
 	lastIdx map[string][4]uint64
 	Mon     func(r *Run, info StepInfo) error
+	// Idle is called whenever the controllers have nothing left to do.
+	Idle func(r *Run) error
 	// Monotonic turns on the cursor-monotonicity monitor (C02, C10).
 	Monotonic    bool
 	staleTargets []string
@@ -124,6 +128,9 @@ func Execute(x *vstat.Ctx, sc Scenario, mon func(r *Run, info StepInfo) error, o
 	w.S.Budget = 4000 + 1500*len(sc.Actions)
 	if r.Monotonic || r.Mon != nil || r.CountInFlight {
 		w.S.Monitor = func(info StepInfo) error { return r.monitor(info) }
+	}
+	if r.Idle != nil {
+		w.S.OnQuiescent = func() error { return r.Idle(r) }
 	}
 	for i, a := range sc.Actions {
 		i, a := i, a
@@ -227,6 +234,14 @@ func (r *Run) noteSent(target string, req fakes.DeviceReq) {
 			if !pv.Deleted {
 				if k, err := nativeKey(pv); err == nil {
 					s.ConfigFlat[p] = k
+				}
+			}
+		}
+		s.AppliedFlat = map[string]string{}
+		for p, pv := range c.Status.Applied.Values {
+			if !pv.Deleted {
+				if k, err := nativeKey(pv); err == nil {
+					s.AppliedFlat[p] = k
 				}
 			}
 		}
@@ -465,4 +480,22 @@ func (r *Run) Close() {
 	if r != nil && r.W != nil {
 		r.W.Close()
 	}
+}
+
+// CheckStoredQuiet is CheckStored without recording known findings or
+// re-synchronising (used as a precondition by idle-time checks).
+func (r *Run) CheckStoredQuiet() error {
+	for _, t := range r.Sc.TargetIDs() {
+		if r.W.Config(t) == nil {
+			continue
+		}
+		got, _, err := r.W.GetProto(t, nil)
+		if err != nil {
+			return err
+		}
+		if d := model.DiffFlat(got, r.Ref.Stored[t].Flat()); d != "" {
+			return fmt.Errorf("%s", d)
+		}
+	}
+	return nil
 }
